@@ -220,12 +220,12 @@ let run_fw (line : ostring) : ostring =
          | Bad e -> "FW err " ^ err_name e
          | Good l ->
              let l = List.rev l in
-             (match f_write_session m_deflate cfg hdr l with
+             (match f_write_session m_deflate cap cfg hdr l with
               | Model.Ok bytes -> "FW ok " ^ hex_of_bytes bytes
               | Model.Err e -> "FW err " ^ err_name e))
      | _ -> "? bad case")
 let run_fr (hex : ostring) : ostring =
-  let r = f_read_session m_inflate (bytes_of_hex hex) in
+  let r = f_read_session m_inflate cap (bytes_of_hex hex) in
   if r.r_open_throws then "FR throws" else
   let b = Buffer.create 1000 in
   Buffer.add_string b ("FR ok n=" ^ string_of_int (List.length r.r_objs) ^ " cend=" ^ stage_name r.r_cend ^ " oend=" ^ stage_name r.r_oend ^
